@@ -1,5 +1,6 @@
 import JediModel.Proto
 import JediModel.Model.SysPath
+import JediModel.Model.ProjFile
 import JediModel.Gen.C20
 open Lean Proto JediModel.SysPath
 open JediModel.Gen.C20
@@ -107,6 +108,16 @@ def handle (j : Json) : Json :=
         | .ok q => jobj [("constructed", jProject p),
                          ("file", jarr (file.2.map fun kv => jarr [jstr kv.1, jPyVal kv.2])),
                          ("loaded", jProject q)]
+  | "savehist" =>
+    -- a history of saves into one project directory: the file after every save, for the open mode of the source
+    let pre : Option (List Char) := match j.getObjVal? "pre" with
+      | .ok (.str s) => some s.toList
+      | _ => Option.none
+    let ws := (strs j "writes").map String.toList
+    match JediModel.ProjFile.modeOf saveOpenMode with
+    | Option.none => jobj [("mode", jstr saveOpenMode), ("trace", .null)]
+    | some m => jobj [("mode", jstr saveOpenMode),
+                      ("trace", jarr ((JediModel.ProjFile.trace m pre ws).map fun c => jstr (String.ofList c)))]
   | op => jobj [("error", jstr ("unknown op " ++ op))]
 
 def main : IO Unit := Proto.run handle
